@@ -358,6 +358,16 @@ func (w *world) opInstall() {
 	w.log.add(evInstallRet, 0, 0)
 }
 
+func (w *world) opInstallRaw() {
+	otel.SetMeterProvider(w.wrapped)
+	w.installed.Store(true)
+}
+
+func (w *world) opInstallTRaw() {
+	otel.SetTracerProvider(w.tsdk)
+	w.tinst.Store(true)
+}
+
 func (w *world) opTracer(t int) {
 	tr := w.tp0.Tracer(fmt.Sprintf("t%d", t))
 	w.log.add(evTracerRet, t, 0)
